@@ -864,6 +864,16 @@ class Evaluator:
                 # member of a value / user type: opaque but harmless projection
                 yield st, ('mcall', name, recv, tuple(ts))
                 return
+            if tc in ('rng', 'dist', 'randdev') or (tc in CONTAINERS and root_of(recv)[0] in ('field', 'this')):
+                # a member the model does not list, called on a data member: conservatively a mutation of that member
+                k = st.fresh()
+                res = ('res', k)
+                st.results[k] = (recv, name, tuple(ts), tc)
+                st.ev('call', recv, name, tuple(ts), res, s, tc, frozenset(['unmodelled']))
+                st.bump(recv, tc)
+                st.decided.clear()
+                yield st, res
+                return
             yield st, self.unknown(st, 'std member %s::%s' % (tc, name), n)
             return
         kind, acc, flags = model
